@@ -76,7 +76,9 @@ def checkOwnParagraphs (op : String) (args : List String) (text : List Int) (od 
   let ps := splitOn text od.paraSep
   let qs := splitOn out od.paraSep
   if qs.length < ps.length then "fail:C11 a paragraph separator was lost"
-  else if op == "indent" ∨ qs.length != ps.length then "ok"
+  -- no unique decomposition into pieces / lines: a self-overlapping or blank line separator
+  -- (`bordered`), separators that overlap one another, a result that spells further separators
+  else if op == "indent" ∨ qs.length != ps.length ∨ bordered od.lineSep ∨ !sepsIndependent od then "ok"
   else
     let hy := op == "wrap"
     let same := (ps.zip qs).all fun (p, q) =>
